@@ -299,6 +299,10 @@ def run(tier, seed, replay=None):
         g1, g2 = gen_cases(R.rng, tier)
         cases += g1
         scenes += g2
+    for c in cases:
+        # corpus / replay inputs of finding F2-C19: the rows GJK leaves unwritten are poisoned (see harness/impl/narrowb.py)
+        if c["meta"].get("poison_heap") is not None:
+            c["ops"] = [dict(o, poison=c["meta"]["poison_heap"]) if o["fn"] == "epa_full" else o for o in c["ops"]]
     phase("caps+proofs+generation")
     R.cov["jit_warmup"] = nb.warm(PID)
     phase("jit_warmup")
